@@ -104,3 +104,39 @@ pub fn gcsched_main(_args: &[String]) {
         let _ = writeln!(out, "{}", j); let _ = out.flush();
     }
 }
+
+/// C14: run the same program k times on one interpreter, collect after each run, report live object counts.
+pub fn leak_case(v: &serde_json::Value) -> serde_json::Value {
+    let src = v.get("src").and_then(|x| x.as_str()).unwrap_or("").to_string();
+    let k = v.get("k").and_then(|x| x.as_u64()).unwrap_or(8);
+    let gc = v.get("gc").and_then(|x| x.as_u64());
+    let p = case_policy(v);
+    let r = std::panic::catch_unwind(move || {
+        let (mut i, log) = new_interp();
+        if let Some(t) = gc { i.set_gc_threshold(t as usize); }
+        let mut lives: Vec<u64> = vec![]; let mut outs: Vec<String> = vec![]; let mut summaries: Vec<String> = vec![];
+        for _ in 0..k {
+            log.borrow_mut().clear();
+            let first = i.prepare(&src, p.path.as_ref().map(|s| tsrun::ModulePath::new(s.as_str())));
+            let o = drive(&mut i, &log, first, &p);
+            outs.push(o.core());
+            i.collect();
+            lives.push(i.gc_stats().live_objects as u64);
+            summaries.push(i.verif_summary());
+        }
+        serde_json::json!({"status": "ok", "lives": lives, "outs": outs, "summary_last": summaries.last(), "summary_first": summaries.first()})
+    });
+    r.unwrap_or_else(|_| serde_json::json!({"status": "panic"}))
+}
+
+pub fn leak_main(_args: &[String]) {
+    let stdin = std::io::stdin(); let stdout = std::io::stdout(); let mut out = stdout.lock();
+    for line in stdin.lock().lines() {
+        let Ok(line) = line else { break }; if line.trim().is_empty() { continue; }
+        let v: serde_json::Value = match serde_json::from_str(&line) { Ok(v) => v, Err(_) => continue };
+        let id = v.get("id").cloned().unwrap_or(serde_json::Value::Null);
+        let _ = writeln!(out, "BEGIN {}", id); let _ = out.flush();
+        let mut j = leak_case(&v); j["id"] = id;
+        let _ = writeln!(out, "{}", j); let _ = out.flush();
+    }
+}
